@@ -6,7 +6,7 @@ from fractions import Fraction
 import common as C
 
 ID = "C01"
-COQ_TARGETS = ["Properties/C01.vo", "GenFacts/ResolutionFacts.vo"]
+COQ_TARGETS = ["Properties/C01.vo", "GenFacts/ResolutionFacts.vo", "GenFacts/NumSrcFacts.vo"]
 EXTRA_OBLIGATIONS = ["resolution_facts_true"]
 MODEL_TARGETS = ["Model/Num.vo"]
 IMPORTS = "From Ka Require Import Model.Num.\nOpen Scope string_scope.\n"
